@@ -40,7 +40,14 @@ RULE = ("one API call {get_defaults, parse_object(dict|Namespace), parse_string,
         "signatures (table SIG, checked against tie/impl/c08_classes.py), NOT from the parser's output; lazy_instance defaults also "
         "on Any-typed hints (argument type Any, class Holder); argument type Dict[str,Base]; two-step histories: a hand-written "
         "partial configuration (specs as Namespace objects, class by name, inside lists/dicts) and the result of a parse with "
-        "defaults=False are handed as cfg_base= / namespace= to a second parse and snapshotted before/after")
+        "defaults=False are handed as cfg_base= / namespace= to a second parse and snapshotted before/after. Round 6: 40% of the "
+        "instantiate cases run on a parser that also has 0-2 CLASS GROUPS (add_class_arguments of a parameterless class; 20% of "
+        "them with an EMPTY configuration object; operation OInstantiateGroups of the heap model); 64 more bracket cases: "
+        "parse_object / validate / dump / instantiate_classes / parse_args on a parser with Literal, Union, Enum, Set, "
+        "Dict[int,.], TypedDict, Type[.], Callable given as class spec, List[dataclass], timedelta, append (--seq+) and nested "
+        "(--dk.a) command-line items; validate with a missing required key / a scalar for a group / an unknown nested key; "
+        "instantiate_classes through a subcommand with a dataclass argument, a class group and a list-valued action (also with "
+        "an empty branch); four default config files (one empty) on a parser whose defaults were declared with set_defaults")
 TRUSTED = [
     "Coq 8.16.1 kernel + vm_compute",
     "tie/impl/c08_inst.py + tie/impl/c08_classes.py (walk the built object trees, number identities by first appearance)",
@@ -58,12 +65,16 @@ ASSUMPTIONS = [
     "exception classes are not compared (one kind of ordinary failure in the model): dump(skip_validation=True) is not run on parsers "
     "with list-valued (nargs) actions, where a non-list value raises TypeError past suppress(ValueError); user-defined objects, threads "
     "and C-level state are outside the model",
+    "class groups in the heap model: parameterless classes only (the instance is a new empty object stored under the group's flat "
+    "key); groups whose class has parameters, dataclass arguments and subcommands are exercised by the bracket cases only",
     "dict subclasses (OrderedDict - which recreate_branches hands over uncopied - and defaultdict) and argument links are NOT in the heap "
     "model: they are only exercised by the bracket cases, where the configuration is snapshotted (value, exact type and identity of "
     "every nested container, exact type of every leaf) before and after the call",
 ]
 EXHAUSTIVE = {"quick": False, "thorough": False}
-FINDING_CLASSES = {1: "parse-object-adapts-in-place", 2: "container-below-tuple-shared", 3: "default-below-tuple-shared"}
+FINDING_CLASSES = {1: "parse-object-adapts-in-place", 2: "container-below-tuple-shared", 3: "default-below-tuple-shared",
+                   4: "empty-config-not-copied"}
+# "judge_fixed3": additionally fixes/C08-empty-config-not-copied.patch applied (strip_meta always copies; no guard left).
 # "judge_fixed2": additionally fixes/C08-default-below-tuple-shared.patch applied (instantiation model without guard).
 # "judge": the pinned tree (faithful model, the two finding classes above; class 9 = fails differently from the listed
 # finding => violation).  "judge_fixed": the tree with fixes/C08-container-below-tuple-shared.patch and
@@ -91,7 +102,14 @@ META = {
         "C08_parse_object_mutates_refuted, C08_parse_object_failure_mutates_refuted, C08_dump_tuple_refuted, "
         "C08_get_defaults_shares_refuted (two findings, fixed in /repo since). For the tree with the two fix patches the same model with "
         "recreate_branches rebuilding tuples and parse_object copying its argument satisfies the statement with NO guard: "
-        "C08_fixed_frame, C08_fixed_frame_loc, C08_fixed_brackets_restore, C08_fixed_defaults_untouched. Second sentence of the "
+        "C08_fixed_frame, C08_fixed_frame_loc, C08_fixed_brackets_restore, C08_fixed_defaults_untouched. Round 6: the operations "
+        "include instantiate_classes on a parser with CLASS GROUPS (OInstantiateGroups: strip_meta, the typed components, then per "
+        "group a new instance stored under the group's key of the namespace strip_meta returned); C08_fixed_frame now carries the "
+        "guard groups_guard (= finding class 4: NOT (empty configuration object AND at least one group)), because strip_meta "
+        "returns an empty configuration uncopied and the instances are written into the caller's object "
+        "(C08_instantiate_empty_config_refuted, open finding empty-config-not-copied); with strip_meta always copying "
+        "(fixes/C08-empty-config-not-copied.patch, model flag sm) C08_fixed3_frame / C08_fixed3_frame_loc / "
+        "C08_fixed3_brackets_restore hold for all operations with NO guard. Second sentence of the "
         "property (coq/Model/C08Inst.v: configurations are trees of scalars, lists, tuples and specs listing all parameters of their "
         "class, those coming from signature / parser defaults marked; identity = the n-th object built): "
         "C08_instantiate_twice_fresh / _pairwise_distinct / _spec (two instantiate_classes calls build one object per spec each, all "
@@ -111,7 +129,7 @@ META = {
     "level_note": (
         "Partial: not modelled and not proved - the heap effects of parse_args on argument-string lists, format_help, config files "
         "and env parsing (only their try/finally skeleton is modelled; argv list / environ dict unchanged is observed), links, "
-        "subcommands, meta keys, Set types, the effect of parse/validate/dump on class_path/init_args specs (the heap model has no "
+        "subcommands, meta keys, Set types, class groups whose class has parameters (nested keys), the effect of parse/validate/dump on class_path/init_args specs (the heap model has no "
         "class types; the instantiation model abstracts the parser away and only says which objects are built), custom instantiators, "
         "user objects with __eq__/__deepcopy__, threads. os.environ is observed but never written by the modelled code. "
         "Single calls only are run against the implementation (histories follow in the model by composing the per-call invariant, "
@@ -136,6 +154,7 @@ SCALARISH = [I, S, ["opt", I], ["opt", S], ["tup2", I, S], ["list", I], ["list",
 WORDS = ["x", "ab", "foo", "q1", "12", "7"]
 DKEYS = ["k", "m", "p"]
 PKEYS = ["a", "b", "c", "d", "e"]
+GKEYS = ["u", "v"]          # class groups
 
 
 class NS(dict):
@@ -273,7 +292,13 @@ def one_case(rng):
     if kind == "parse_object" and rng.random() < 0.35:
         pool = SCALARISH
     decls = gen_parser(rng, pool)
-    if kind in NARGS_OPS:
+    groups = []
+    if kind == "instantiate" and rng.random() < 0.4:
+        # a parser that also has CLASS GROUPS (add_class_arguments of a class without parameters): instantiate_classes
+        # stores one new instance per group in the namespace it works on
+        kind = "instantiate_groups"
+        groups = GKEYS[: rng.randint(0, 2)] if rng.random() < 0.15 else GKEYS[: rng.randint(1, 2)]
+    if kind in NARGS_OPS or kind == "instantiate_groups":
         # list-valued ACTIONS (nargs): their elements are checked one by one and written back into the list handed over
         for d in decls:
             if rng.random() < 0.3:
@@ -326,6 +351,10 @@ def one_case(rng):
         return mk_case(decls, kind, [cfg], skipval=rng.random() < 0.25 and not has_nargs)
     if kind == "save":
         return mk_case(decls, kind, [cfg], exists=failing and rng.random() < 0.3, dir=rng.choice(DIRS))
+    if kind == "instantiate_groups":
+        if rng.random() < 0.2:
+            cfg = NS()                            # an empty configuration: everything comes from the groups
+        return mk_case(decls, kind, [cfg], groups=groups)
     return mk_case(decls, kind, [cfg])
 
 
@@ -361,6 +390,12 @@ def fixed_cases():
         mk_case([["k", LL, [[1], [2]]], ["a", I, 3]], "parse_path", content={"k": [["1"]], "a": "foo"}, dir="symlink"),
         mk_case([["k", LL, [[1], [2]]], ["a", I, 3]], "parse_path", content={"k": [["1"]], "a": 4}, dir="symrel"),
         mk_case([["k", LL, [[1], [2]]], ["a", I, 3]], "save", [NS(k=[["1"]], a=4)], exists=False, dir="symlink"),
+        # class groups: a non-empty and an EMPTY configuration (finding empty-config-not-copied), a parser with groups only
+        mk_case([["k", LL, None], ["a", I, 3]], "instantiate_groups", [NS(k=[["1"]], a=4)], groups=["u", "v"]),
+        mk_case([["a", I, 3]], "instantiate_groups", [NS()], groups=["u"]),
+        mk_case([], "instantiate_groups", [NS()], groups=["u", "v"]),
+        mk_case([["a", I, 3]], "instantiate_groups", [NS()], groups=[]),
+        mk_case([["a", I, 3]], "instantiate_groups", [NS(a="x")], groups=["u"]),
     ]
     return cs
 
@@ -525,8 +560,13 @@ def fixed_inst_cases():
 
 AUX_ENTRIES = ["args_cfg", "dflt_get_defaults", "dflt_help", "dflt_parse_args", "list_file", "parse_env", "dflt_print_help",
                "get_defaults", "parse_args", "parse_object", "parse_string", "dump_skip_default", "validate",
-               "od_parse_object", "od_validate", "od_dump", "save_links", "save_links_sub", "dump_links"]
-AUX_NO_FILE = AUX_ENTRIES[7:16] + ["parse_env", "dump_links"]
+               "od_parse_object", "od_validate", "od_dump", "save_links", "save_links_sub", "dump_links",
+               # round 6 (reach): the adapt_typehints branches outside the heap model's types, validate's error branches,
+               # instantiate_classes through a subcommand with dataclass argument / class group, several default config files
+               "ty_parse_object", "ty_validate", "ty_dump", "ty_instantiate", "ty_parse_args",
+               "validate_required", "validate_group_scalar", "validate_group_extra", "inst_sub", "inst_sub_empty",
+               "dflt_many_get_defaults", "dflt_many_parse_args"]
+AUX_NO_FILE = AUX_ENTRIES[7:16] + ["parse_env", "dump_links"] + AUX_ENTRIES[19:29]
 
 
 def aux_cases():
@@ -664,6 +704,8 @@ def gop(op):
         return "OStripUnknown %s" % a
     if k == "instantiate":
         return "OInstantiate %s" % a
+    if k == "instantiate_groups":
+        return "OInstantiateGroups %s %s" % (a, g_list([g_str(x) for x in op["groups"]], "str"))
     raise ValueError(k)
 
 
